@@ -74,6 +74,10 @@ add("C10","exploration","exhaustive enumeration of library inputs / API calls / 
     "Three workloads run under strace -f: ~10 000 library cases (harvested seeds through all 36 front-end compositions, JS-facing API calls), every applicable in-process server session up to depth 2 (3 thorough) followed by HarperRecordLint and shutdown with a configured statsPath plus four documents whose URIs carry encoded path separators and parent-directory segments, and the shipped harper-ls binary over stdio (9 sessions x statsPath on/off) and TCP. The syscall log must contain no network socket/connect/bind/send other than the loopback listener, no resolver-configuration read, and no file creation/rename/unlink/mkdir outside the configured user dictionary, file-dictionary directory and statistics file (paths normalised). The cargo metadata graph from all shipped crates is searched for ~80 network/TLS/DNS/telemetry crates.",
     "the dependency half is only as strong as the deny-list; HarperOpen excluded (as the property says); TCP mode skipped if port 4000 is taken", "§4.C10", "E3")
 
+add("C04","exploration","exhaustive enumeration of generated files (all sequences of language segments up to a length bound x indentation x line ending) whose prose positions are known by construction",
+    "For each of 35 front-ends with a segment table (22 comment languages, the harper-ls compositions, Markdown x2 + isolate, git-commit, HTML, Typst, Literate Haskell): every sequence of <= 3 (4 thorough) segments out of 6-11 kinds (code, code with a string literal holding sentinels and multi-byte text, line/block/doc comments, ignore-marker comments, shebang, Go directive, blank; markup: paragraph, heading, list, emphasis, link, table, inline code, math, fenced/indented code, raw HTML, comment, script, style, bird-track and LaTeX code) x 3 indentations x LF/CRLF. Every prose word must be a Word token at exactly its char span; no Word/Number/Hostname/Email token may overlap a non-prose region or a sentinel; no other word may be offered.",
+    "the segment tables are the harness's model of each language; documented coarse behaviours are premises (an ignore marker drops the whole whitespace-merged comment block; ignore_link_title; IsolateEnglish may drop prose; git strips everything after the first #)", "§4.C04", "E1")
+
 claimed = [C[k] for k in sorted(C)]
 na = [dict(property_id=p["id"], reason="check under construction in this build phase; not claimed until its command exists and passes on the unchanged tree")
       for p in props if p["id"] not in C]
@@ -83,7 +87,7 @@ m = dict(version=1,
              enable="no source hook is needed: every seam is public API, #[path] inclusion of harper-ls's modules into the harness crate, the LSP wire or the syscall boundary; checks build /repo's working tree as path dependencies",
              baseline_off_cmd="cd /repo && RUSTUP_TOOLCHAIN=stable-x86_64-unknown-linux-gnu cargo nextest run --workspace --no-fail-fast --offline",
              source_commits=[], add_only=True),
-  engines=[dict(name="E1 text-space explorer", path="/verif/harness/hv/src/{pool,spaces,sweep,small}.rs", serves_properties=[k for k in sorted(C) if C[k]["engine"]=="E1"], kind_free_text="exhaustive enumeration of finite input spaces over the real parsers/linters in watchdog-supervised worker processes"),
+  engines=[dict(name="E1 text-space explorer", path="/verif/harness/hv/src/{pool,spaces,sweep,small,c04,c06,c08,c12,c15}.rs", serves_properties=[k for k in sorted(C) if C[k]["engine"]=="E1"], kind_free_text="exhaustive enumeration of finite input spaces over the real parsers/linters in watchdog-supervised worker processes"),
            dict(name="E3 language-server explorer", path="/verif/harness/hv/src/{e3,c07,c09}.rs", serves_properties=[k for k in sorted(C) if C[k]["engine"]=="E3"], kind_free_text="controlled executor over the unmodified harper-ls Backend and tower-lsp router: hand-polled handler futures, held client answers, gated blocking pool, deviation-bounded schedule enumeration with replay"),
            dict(name="E2 history explorer", path="/verif/harness/hv/src/{e2,c11,c14,c19}.rs", serves_properties=[k for k in sorted(C) if C[k]["engine"]=="E2"], kind_free_text="breadth-first enumeration of operation histories on long-lived real objects against reference models")],
   checks=claimed, not_applicable=na,
